@@ -31,9 +31,14 @@ for _p in ("C01", "C02", "C03", "C04", "C05", "C06", "C07", "C08", "C15", "C19")
 PROPS["C04"]["pkgs"] = [(".", "TestVerif_C04"), (".", "TestVerif_C04TCP")]
 # C15 also judges the forced teardown schedules (threads parked inside lifecycle callbacks) of the allocation package
 PROPS["C15"]["pkgs"] = [(".", "TestVerif_C15"), ("./internal/allocation", "TestVerif_C15TD")]
+PROPS["C15"]["pre"] = "c15td:pre"
 PROPS["C15"]["trusted_base"] = _RELAY_TB + [
-    "slow-callback teardown: the forced schedules of harness/allocation (threads parked in the Created callbacks, timers fired by the "
-    "virtual clock) are judged on their observations alone by Check/C15TdCheck.v; there is no universal theorem for that predicate (partial)"]
+    "slow-callback teardown: translator/lockskel -ordersonly extracts the step orders of AddPermission / AddChannelBind / Close from the "
+    "source on every run (lib/c15td.py evaluates orders_ok, callbacks_last and close_shape_ok on them); the forced schedules of "
+    "harness/allocation (threads parked in the Created callbacks, timers fired by the virtual clock) are replayed on Model/Teardown.v "
+    "under those orders and judged by Check/C15TdCheck.v; what remains published is a theorem over every macro trace of the model "
+    "(C15_slow_callback_maps_on_every_model_trace), the pairing of Created and Deleted callbacks in these schedules is checked on the "
+    "real code only (partial); the model's atomic steps (one mutex-protected section = one step) are an abstraction of the Go code"]
 PROPS["C04"]["trusted_base"] = _RELAY_TB + [
     "TCP relay part: peer and data connections are in-memory streams; dial outcomes and the server's random connection ids are "
     "inputs of Model/TcpRelay.v (as for C16)"]
